@@ -18,7 +18,7 @@ warnings.filterwarnings("ignore", category=DeprecationWarning)
 import logging  # noqa: E402
 
 logging.getLogger("rdflib.term").setLevel(logging.ERROR)  # "does not look like a valid URI" for odd skolem IRIs
-from rdflib import BNode, Graph, Literal, URIRef  # noqa: E402
+from rdflib import BNode, Dataset, Graph, Literal, URIRef  # noqa: E402
 from rdflib.compare import graph_diff, isomorphic, to_canonical_graph, to_isomorphic  # noqa: E402
 
 TRUSTED = [
@@ -75,8 +75,12 @@ def to_term(t):
     return CONSTS[t[1] - 1] if t[0] == 0 else BNode("n%d" % t[1])
 
 
-def build(ts):
-    g = Graph()
+SAME_ID = URIRef("urn:x-verif:same-name")
+OTHER_ID = URIRef("urn:x-verif:other")
+
+
+def build(ts, g=None):
+    g = Graph() if g is None else g
     for s, p, o in ts:
         g.add((to_term(s), to_term(p), to_term(o)))
     return g
@@ -379,8 +383,24 @@ class C14(Suite):
     thorough_n = 12000
     timeout_s = 20.0
 
-    # case = {"g1": [[term, term, term] ...], "g2": [...], "fam": str}; term = [0, const id] | [1, blank label number]
+    # case = {"g1": [[term, term, term] ...], "g2": [...], "fam": str, "ident": 0|1|2, "skv": {...}}
+    # term = [0, const id] | [1, blank label number]
+    # ident: how the two rdflib graph objects are made: 0 = Graph() each (fresh blank identifiers), 1 = two
+    #   Graph(identifier=X) in two stores (g1 == g2 is True whatever the contents: Graph.__eq__ compares identifiers),
+    #   2 = the graph named X of two different Datasets
+    # skv: arguments of the second skolemize call (authority / basepath under /.well-known/genid/ / new_graph / bnode)
     def gen(self, rng, i):
+        case = self._gen0(rng, i)
+        case["ident"] = rng.choice([0, 0, 1, 1, 2])
+        bl = sorted({x[1] for t in case["g1"] for x in (t[0], t[2]) if x[0] == 1})
+        case["skv"] = {"authority": rng.choice([None, None, "http://ex.org", "http://ex.org/base/x", "urn:x:a"]),
+                       "basepath": rng.choice([None, "/.well-known/genid/app1/", "/.well-known/genid/app1/",
+                                               "/.well-known/genid/"]),
+                       "new_graph": rng.random() < 0.3,
+                       "bnode": rng.choice(bl) if bl and rng.random() < 0.25 else None}
+        return case
+
+    def _gen0(self, rng, i):
         r = rng.random()
         if r < 0.03:
             return self.gen_leak(rng)
@@ -463,7 +483,15 @@ class C14(Suite):
 
     # ------------------------------------------------------------ implementation
     def run_impl(self, case):
-        g1, g2 = build(case["g1"]), build(case["g2"])
+        ident = case.get("ident", 0)
+        if ident == 1:
+            g1, g2 = build(case["g1"], Graph(identifier=SAME_ID)), build(case["g2"], Graph(identifier=SAME_ID))
+        elif ident == 2:
+            d1, d2 = Dataset(), Dataset()
+            d2.graph(OTHER_ID).add((CONSTS[0], CONSTS[2], CONSTS[1]))  # the stores differ in more than the view
+            g1, g2 = build(case["g1"], d1.graph(SAME_ID)), build(case["g2"], d2.graph(SAME_ID))
+        else:
+            g1, g2 = build(case["g1"]), build(case["g2"])
         in_labels = {}
 
         def back(t, labels):
@@ -500,18 +528,40 @@ class C14(Suite):
             o_sk = sorted([back(x, in_labels) for x in t] for t in sk)
         except Exception:  # noqa: BLE001
             o_sk = ERR_GRAPH
+        try:
+            v = case.get("skv") or {}
+            kw = {k: v[k] for k in ("authority", "basepath") if v.get(k) is not None}
+            if v.get("new_graph"):
+                kw["new_graph"] = Graph()
+            if v.get("bnode") is not None:
+                kw["bnode"] = BNode("n%d" % v["bnode"])
+            fresh = {}
+
+            def back_in(t):
+                if isinstance(t, BNode):
+                    x = str.__str__(t)
+                    if x[:1] == "n" and x[1:].isdigit():
+                        return B(int(x[1:]))
+                    return B(900 + fresh.setdefault(x, len(fresh)))  # a blank node minted by the external branch
+                return C(CONST_ID.get(tkey(t), 998))
+
+            skv = g1.skolemize(**kw).de_skolemize()
+            o_skv = sorted([back_in(x) for x in t] for t in skv)
+        except Exception:  # noqa: BLE001
+            o_skv = ERR_GRAPH
         alts = [alt_verdict(k, case) for k in ALT_SEEDS]
         err = None in (o_iso, o_toiso, o_caneq) or None in alts
         return {"iso": bool(o_iso), "toiso": bool(o_toiso), "caneq": bool(o_caneq), "error": err,
                 "alt1": bool(alts[0]), "alt2": bool(alts[-1]),
                 "cg1": graphs[0] if not err else ERR_GRAPH, "cg2": graphs[1], "both": graphs[2], "first": graphs[3],
-                "second": graphs[4], "sk": o_sk}
+                "second": graphs[4], "sk": o_sk, "skv": o_skv}
 
     def on_timeout(self, case):
         _kill_workers()  # a worker may still be busy with this case
         return {"iso": False, "toiso": False, "caneq": False, "alt1": False, "alt2": False, "error": True, "timeout": True,
                 "cg1": ERR_GRAPH,
-                "cg2": ERR_GRAPH, "both": ERR_GRAPH, "first": ERR_GRAPH, "second": ERR_GRAPH, "sk": ERR_GRAPH}
+                "cg2": ERR_GRAPH, "both": ERR_GRAPH, "first": ERR_GRAPH, "second": ERR_GRAPH, "sk": ERR_GRAPH,
+                "skv": ERR_GRAPH}
 
     # ------------------------------------------------------------ Coq text
     def coq_case(self, case):
@@ -520,10 +570,10 @@ class C14(Suite):
     def coq_obs(self, o):
         return ("{| o_iso := %s; o_toiso := %s; o_caneq := %s; o_alt1 := %s; o_alt2 := %s; o_cg1 := %s; o_cg2 := %s; "
                 "o_both := %s; o_first := %s; "
-                "o_second := %s; o_sk := %s |}" % (cbool(o["iso"]), cbool(o["toiso"]), cbool(o["caneq"]),
+                "o_second := %s; o_sk := %s; o_skv := %s |}" % (cbool(o["iso"]), cbool(o["toiso"]), cbool(o["caneq"]),
                                                   cbool(o["alt1"]), cbool(o["alt2"]), c_graph(o["cg1"]),
                                                   c_graph(o["cg2"]), c_graph(o["both"]), c_graph(o["first"]),
-                                                  c_graph(o["second"]), c_graph(o["sk"])))
+                                                  c_graph(o["second"]), c_graph(o["sk"]), c_graph(o["skv"])))
 
     def nontrivial(self, case, obs):
         return nblanks(case["g1"]) >= 2 and nblanks(case["g2"]) >= 2
